@@ -1413,3 +1413,68 @@ def zero_baseline_count_changes_other_units(pi_method="bootstrap"):
         out["exc"] = f"{type(e).__name__}: {e}"
         out["ok"] = False
     return out
+
+
+def run_seed_demo(seed_id):
+    """run the scenario script an independent author wrote for a seeded change (/verif/seeded/<id>/demo.py: it builds one
+    concrete election and checks the property's clauses directly from the statement) against the CURRENT tree; exit 0 =
+    the clauses hold on that scenario"""
+    import subprocess
+    import sys
+
+    here = os.path.dirname(os.path.abspath(__file__))
+    p = subprocess.run([sys.executable, "-W", "ignore", os.path.join(here, "seeded", seed_id, "demo.py")], capture_output=True, text=True, timeout=900, env=dict(os.environ))
+    return {"exit": p.returncode, "tail": (p.stdout + p.stderr)[-600:]}
+
+
+def calibration_split_replay(n_rep=21, alpha=0.9):
+    """REAL nonparametric estimator with three covariates and a number of reporting units close to the minimum: the units the
+    two interval regressions are FITTED on (recorded through the weights handed to the solver) and the calibration units
+    (the conformalization frame) must be disjoint and together all reporting units"""
+    from elexsolver.QuantileRegressionSolver import QuantileRegressionSolver
+
+    from elexmodel.models.NonparametricElectionModel import NonparametricElectionModel
+
+    rng = np.random.default_rng(8)
+    n_non = 5
+
+    def frame(n, rep):
+        last = (np.arange(n) * 37 + (1000 if rep else 9000) + rng.integers(0, 30, n)).astype(float)  # distinct weights identify units
+        df = pd.DataFrame({"postal_code": "AA", "geographic_unit_fips": [f"{'r' if rep else 'n'}{i}" for i in range(n)], "reporting": int(rep), "unit_category": "expected"})
+        df["last_election_results_turnout"] = last
+        for f in ("f1", "f2", "f3"):
+            df[f] = rng.normal(size=n)
+        df["results_turnout"] = np.round(last * (1 + 0.05 * df.f1 + rng.normal(0, 0.05, n))) if rep else np.round(last * 0.1)
+        df["residuals_turnout"] = (df["results_turnout"] - df["last_election_results_turnout"]) / df["last_election_results_turnout"]
+        return df
+
+    rep, non = frame(n_rep, True), frame(n_non, False)
+    fits = []
+    real_fit = QuantileRegressionSolver.fit
+
+    def fit(self, x, y, *a, **k):
+        w = k.get("weights", a[1] if len(a) > 1 else None)
+        fits.append(sorted(float(v) for v in np.asarray(w).ravel()))
+        return real_fit(self, x, y, *a, **k)
+
+    out = {"exc": None}
+    QuantileRegressionSolver.fit = fit
+    try:
+        m = NonparametricElectionModel({"features": ["f1", "f2", "f3"]})
+        m.get_unit_predictions(rep, non, "turnout")
+        fits.clear()
+        pi = m.get_unit_prediction_intervals(rep, non, alpha, "turnout")
+        cal = sorted(float(v) for v in pi.conformalization["last_election_results_turnout"])
+        allw = sorted(float(v) for v in rep.last_election_results_turnout)
+        out["n_fits"] = len(fits)
+        out["n_train"], out["n_cal"], out["n_rep"] = len(fits[0]) if fits else None, len(cal), n_rep
+        disjoint = all(not (set(f) & set(cal)) for f in fits)
+        exhaustive = all(sorted(f + cal) == allw for f in fits)
+        out["disjoint"], out["exhaustive"] = bool(disjoint), bool(exhaustive)
+        out["ok"] = bool(len(fits) == 2 and disjoint and exhaustive)
+    except Exception as e:  # noqa
+        out["exc"] = f"{type(e).__name__}: {e}"
+        out["ok"] = False
+    finally:
+        QuantileRegressionSolver.fit = real_fit
+    return out
